@@ -588,7 +588,7 @@ func gen(r *rand.Rand, tier string, emit func(string)) {
 	buildFile() // fills `bindings`
 	scale := 1
 	if tier == "thorough" {
-		scale = 40
+		scale = 25
 	}
 	genCores(r, scale, emit)
 	genHTTP(r, scale, emit)
@@ -626,7 +626,7 @@ func genHTTP(r *rand.Rand, scale int, emit func(string)) {
 			count("http-enum")
 		}
 	}
-	n := 1500 * scale
+	n := 3500 * scale
 	for i := 0; i < n; i++ {
 		b := common.Pick(r, bindings)
 		p := validRequest(r, b)
@@ -745,7 +745,7 @@ func genHTTP(r *rand.Rand, scale int, emit func(string)) {
 		}
 	}
 	// 3. fully random stream
-	for i := 0; i < 400*scale; i++ {
+	for i := 0; i < 600*scale; i++ {
 		var raw string
 		switch r.Intn(3) {
 		case 0:
@@ -813,7 +813,7 @@ func genWS(r *rand.Rand, scale int, emit func(string)) {
 			return fr('T', []byte(breakJSON(r, msgFor(""))))
 		}
 	}
-	n := 170 * scale
+	n := 260 * scale
 	for i := 0; i < n; i++ {
 		t := common.Pick(r, wsTargets)
 		target := t.target
@@ -859,7 +859,7 @@ func genWS(r *rand.Rand, scale int, emit func(string)) {
 	badMD := [][]byte{[]byte("garbage"), []byte("no colon\r\n"), []byte(": empty key\r\n"), {0xff, 0xfe}, []byte("a: b\r\n\r\nextra"), []byte(" lead: x\r\n"),
 		[]byte("a b: c\r\n"), []byte("k: " + strings.Repeat("v", 70000) + "\r\n"), {0}, []byte("a:\x00b\r\n")}
 	data := func(flow byte, payload []byte) []byte { return append([]byte{flow}, frame(0, payload)...) }
-	for i := 0; i < 130*scale; i++ {
+	for i := 0; i < 200*scale; i++ {
 		target := common.Pick(r, grpcPaths[:12])
 		scr := randScript(r)
 		end := common.Pick(r, []string{"wait", "wait", "wait", "close", "drop"})
